@@ -46,6 +46,8 @@ func main() {
 		err = c10Main(*seed, *n, *out)
 	case "c16":
 		err = c16Main(*seed, *n, *out)
+	case "c11":
+		err = c11Main(*seed, *n, *out)
 	case "c13race":
 		err = c13Race(*seed, *n)
 	case "c13":
